@@ -121,7 +121,9 @@ pub fn run(r: &Req) -> Option<String> {
     let n = r.usize("n");
     let w = r.usize("w");
     let xs: Vec<i64> = (0..n as i64).map(|i| i + 10).collect();
-    let ys: Vec<i64> = (0..n as i64).map(|i| i + 50).collect();
+    // the second series may be longer than the first (`n2=`): only its first `n` elements matter
+    let n2 = if r.has("n2") { r.usize("n2") } else { n };
+    let ys: Vec<i64> = (0..n2 as i64).map(|i| i + 50).collect();
     let path = r.s("p");
     let f = r.f.as_str();
     let b = if r.s("b").is_empty() { "vec" } else { r.s("b") };
@@ -165,6 +167,10 @@ pub fn generate(tier: &str, _rng: &mut Rng) -> (Vec<String>, bool) {
                         for w in 1..=n + 3 {
                             let sh = if p == "out" || matches!(*b, "vec" | "slice" | "arr" | "arc" | "nd" | "ndvm") || b.starts_with("ndv") { "to" } else { "iter" };
                             out.push(format!("{} b={} oc={} p={} sh={} n={} w={}", f, b, oc, p, sh, n, w));
+                            if f.contains('2') && (n + w) % 3 == 0 {
+                                // a longer second series: the output is as long as the *first* series
+                                out.push(format!("{} b={} oc={} p={} sh={} n={} w={} n2={}", f, b, oc, p, sh, n, w, n + 1 + (w % 3)));
+                            }
                         }
                     }
                 }
